@@ -1597,6 +1597,17 @@ func serviceNodesTxn(tx ReadTxn, ws memdb.WatchSet, index string, q Query) (uint
 	if idx < svcIdx {
 		idx = svcIdx
 	}
+	if connect {
+		// Proxies are usually registered under a different service name than
+		// their destination, so their registration does not touch the
+		// destination's service index. Fold in the index of every service name
+		// in the result so that a change to a proxy is reported with a larger
+		// index.
+		resIdx, _ := maxIndexAndWatchChsForServiceNodes(tx, results, false)
+		if idx < resIdx {
+			idx = resIdx
+		}
+	}
 
 	return idx, results, nil
 }
